@@ -105,7 +105,7 @@ func wrongTyped(r *rand.Rand) (value.Value, string) {
 }
 
 func c14(c *wk.Ctx) {
-	c.Note("rule", "each history: a freshly generated property level (int32, validator refuses negative values) on a Probe object; 3-6 clients over 1-3 sessions plus the service itself issue <= 60 (200 thorough) operations: GetLevel, SetLevel(unique valid value), SetLevel(negative), generic setProperty(level - by name or by numeric id -, wrongly typed value: string, long, float, uint, bool, list; or a valid value by id), service-side UpdateLevel(unique value / negative); one or two subscribers (SubscribeLevel) stay subscribed; 0-3 further clients, each on a connection of its own, subscribe while the operations are in flight and must receive every accepted write issued after their subscription was acknowledged, once; the service keeps updating the object's other property (gain) all along. Call/return stamps come from one logical clock at the client boundary. Oracle: porcupine checks the history against a register model (accepted set/update -> state, invalid or wrongly typed write -> must be an error and state unchanged, get -> current state without error); a valid write that is refused is a violation; each continuously subscribed reader must receive exactly the set of accepted values, each once (missing decided by the quiescence detector). Stream faulty-link: 2-5 subscribers (some cancel and subscribe again first; in a third of the histories the object's generic statistics are switched on) on own connections to a stand-alone server whose listener is wrapped by the harness; the link towards one of them starts refusing writes (reads stay open, the server sees no disconnection), or stalls in the middle of one fan-out while a subscriber registered after it cancels; every subscriber also listens to the signal tick, which the service emits now and then; a sequential mix of client writes, service-side updates (some of them writing the value that is already stored), refused writes and reads follows (in a third of the histories no link fails), possibly with a subscriber joining: every subscriber on a healthy link receives exactly the accepted values, in order; reads return the last accepted value (the outcome reported to the writer is not judged). Stream wide: the properties label (str) and spot (a structure) hold unique values of 10 B - 40 KiB written concurrently by 2-3 clients and 1-3 goroutines of the service over unix / tcp, with subscribers on own connections and a reader: valid writes accepted, refused ones report an error, reads return an intact written value, the final read is some writer's last accepted value, every subscriber gets each accepted value once, intact. Distinct non-trivial = distinct histories with at least two overlapping operations and one accepted write.")
+	c.Note("rule", "each history: a freshly generated property level (int32, validator refuses negative values) on a Probe object; 3-6 clients over 1-3 sessions plus the service itself issue <= 60 (200 thorough) operations: GetLevel, SetLevel(unique valid value), SetLevel(negative), generic setProperty(level - by name or by numeric id -, wrongly typed value: string, long, float, uint, bool, list; or a valid value by id), service-side UpdateLevel(unique value / negative); in one history out of two, on every session two subscribers sharing the client's registration first come and go in order of arrival; one or two subscribers (SubscribeLevel) stay subscribed; 0-3 further clients, each on a connection of its own, subscribe while the operations are in flight and must receive every accepted write issued after their subscription was acknowledged, once; the service keeps updating the object's other property (gain) all along. Call/return stamps come from one logical clock at the client boundary. Oracle: porcupine checks the history against a register model (accepted set/update -> state, invalid or wrongly typed write -> must be an error and state unchanged, get -> current state without error); a valid write that is refused is a violation; each continuously subscribed reader must receive exactly the set of accepted values, each once (missing decided by the quiescence detector). Stream faulty-link: 2-5 subscribers (some cancel and subscribe again first; in a third of the histories the object's generic statistics are switched on) on own connections to a stand-alone server whose listener is wrapped by the harness; the link towards one of them starts refusing writes (reads stay open, the server sees no disconnection), or stalls in the middle of one fan-out while a subscriber registered after it cancels; every subscriber also listens to the signal tick, which the service emits now and then; a sequential mix of client writes, service-side updates (some of them writing the value that is already stored), refused writes and reads follows (in a third of the histories no link fails), possibly with a subscriber joining: every subscriber on a healthy link receives exactly the accepted values, in order; reads return the last accepted value (the outcome reported to the writer is not judged). Stream wide: the properties label (str) and spot (a structure) hold unique values of 10 B - 40 KiB written concurrently by 2-3 clients and 1-3 goroutines of the service over unix / tcp, with subscribers on own connections and a reader: valid writes accepted, refused ones report an error, reads return an intact written value, the final read is some writer's last accepted value, every subscriber gets each accepted value once, intact. Distinct non-trivial = distinct histories with at least two overlapping operations and one accepted write.")
 	var w *world
 	defer func() {
 		if w != nil {
@@ -176,6 +176,38 @@ func c14one(c *wk.Ctx, i int, rng *rand.Rand, w *world, name string) {
 		cancel func()
 		closed int32
 	}
+	// prologue (one history in two): on every session two subscribers share the client's registration, come
+	// and go in order of arrival (the first to arrive leaves first); whatever they leave behind must not
+	// reach the subscribers which follow on the same connection
+	prologues := 0
+	if rng.Intn(2) == 0 {
+		for k := range sessions {
+			pa, err1 := proxyFor(sessions[k], ps, ps.objs[0])
+			pb, err2 := proxyFor(sessions[k], ps, ps.objs[0])
+			if err1 != nil || err2 != nil {
+				c.Inconclusive("history", i, "proxy (prologue)")
+				return
+			}
+			ca, cha, err1 := pa.SubscribeLevel()
+			cb, chb, err2 := pb.SubscribeLevel()
+			if err1 != nil || err2 != nil {
+				c.Inconclusive("history", i, "subscribe (prologue)")
+				return
+			}
+			go func() {
+				for range cha {
+				}
+			}()
+			go func() {
+				for range chb {
+				}
+			}()
+			ca()
+			cb()
+			prologues++
+		}
+	}
+	c.Count("sessions_on_which_two_subscribers_came_and_went_before_the_history", int64(prologues))
 	var progress int64
 	nReaders := 1 + rng.Intn(2)
 	readers := make([]*reader, nReaders)
